@@ -34,6 +34,8 @@ def gen_case(rng):
             "policy": rng.choice(["debug", "release"]),
             "reg_order": rng.sample(range(n), n)}
     case["slots_late"] = rng.random() < 0.5
+    case["again"] = sorted(rng.sample(range(n), rng.randint(1, n))) \
+        if rng.random() < 0.4 else []
     # definitions: tuples of classes derived from the parameter classes
     anc = ancestors(case)
     for m in meths:
@@ -125,6 +127,11 @@ def emit(case):
     out.append("#endif")
     out.append("register_classes(%s);" % ", ".join(
         "K%d" % c for c in case.get("reg_order", range(n))))
+    # the same classes registered once more, edge by edge (legal: a class may
+    # be registered several times, e.g. by several translation units)
+    for c in case.get("again", []):
+        out.append("register_classes(%s);" % ", ".join(
+            ["K%d" % c] + ["K%d" % b for b in case["bases"][c]]))
     for i, m in enumerate(case["meths"]):
         for d, t in enumerate(m["defs"]):
             params = ["K%d& a%d" % (c, k) for k, c in enumerate(t)]
